@@ -3,7 +3,7 @@
 # (on a scratch copy, see trial.sh) and writes seeded/RESULTS.md
 cd /verif
 ids="$@"; [ -z "$ids" ] && ids=$(ls seeded | grep -E '^C[0-9]+-m[0-9]+$')
-OUT=seeded/RESULTS.md
+OUT="${OUT:-seeded/RESULTS.md}"
 {
 echo "# Seeded-defect trials"
 echo
